@@ -533,7 +533,16 @@ pub mod p_@GID@ {
     pub struct P;
 }
 '''
-FN_T = '''fn t_@GID@_@RULE@<'i>(e: &str, f: &str, a: usize, b: usize, i: &'i str) -> String { run_typed::<t_@GID@::Rule, t_@GID@::rules::r#@RULE@<'i>>(e, f, a, b, i) }
+FN_T = '''fn t_@GID@_@RULE@<'i>(e: &str, f: &str, a: usize, b: usize, i: &'i str) -> String {
+    let mut s = run_typed::<t_@GID@::Rule, t_@GID@::rules::r#@RULE@<'i>>(e, f, a, b, i);
+    // the derived `TypedParser` impl's convenience methods (main/src/lib.rs) on the same input
+    if f == "str" && e == "parse" {
+        s.push_str(match <t_@GID@::P as pest_typed::TypedParser<t_@GID@::Rule>>::try_parse::<t_@GID@::rules::r#@RULE@<'i>>(i) { Ok(_) => "\\ttp=ok", Err(_) => "\\ttp=fail" });
+    } else if f == "str" && e == "check" {
+        s.push_str(match <t_@GID@::P as pest_typed::TypedParser<t_@GID@::Rule>>::try_check::<t_@GID@::rules::r#@RULE@<'i>>(i) { Ok(_) => "\\ttp=ok", Err(_) => "\\ttp=fail" });
+    }
+    s
+}
 '''
 FN_P = '''fn p_@GID@_@RULE@(i: &str) -> String { run_pest::<p_@GID@::Rule, p_@GID@::P>(p_@GID@::Rule::r#@RULE@, i) }
 '''
